@@ -24,7 +24,7 @@ CONSTANTS Fmts,        \* formats (heads of families) enumerated in this run
 
 VARIABLES fmt, vec, st
 
-QuickClasses == {"typ", "zero", "one", "over", "big", "max", "bad", "keep", "fix", "n:5", "n:6", "n:8", "n:16", "n:3", "n:2", "n:4"}
+QuickClasses == {"typ", "zero", "one", "over", "big", "max", "bad", "keep", "fix", "n:5", "n:6", "n:8", "n:16", "n:3", "n:2", "n:4", "n:65"}
 Dom(f) == IF Quick THEN f.dom \cap QuickClasses ELSE f.dom
 Neutral(f) == IF f.k = "seal" THEN "keep" ELSE "typ"
 Fields(m) == {Row(m)[i] : i \in 1..Len(Row(m))}
@@ -62,6 +62,12 @@ Proportional == st.peak <= AllocBoundKiB(L, Decomp(fmt))
 StepsBounded == st.steps <= 2 * Len(Row(fmt)) + L
 \* the functional fold used by the trace monitor agrees with the action
 FoldAgrees   == st.out # "run" => st \in Finals(fmt, vec, KnownDeviations)
+
+\* run with the listed deviations: every state that breaks the property names the finding whose guard
+\* was skipped (the check compares the set of names with the list of known findings)
+Witness ==
+  (st.out \in {"panic", "abort"} \/ (st.out # "run" /\ st.peak > AllocBoundKiB(L, Decomp(fmt)))) =>
+  PrintT(<<"WITNESS", ToJson([fmt |-> fmt, fid |-> Row(fmt)[st.i].dev, out |-> st.out])>>)
 
 Seal(v) == IF "seal" \in DOMAIN v THEN v["seal"] ELSE "keep"
 Emit == st.out # "run" =>
